@@ -47,6 +47,7 @@ type BalloonsCfg struct {
 	TopoBalancing  bool          `json:"allocatorTopologyBalancing,omitempty"`
 	SpreadCores    bool          `json:"preferSpreadOnPhysicalCores,omitempty"`
 	PreserveLabel  string        `json:"preserveLabel,omitempty"` // preserve rule: pod/labels/app In [value]
+	PreserveName   string        `json:"preserveName,omitempty"`  // second expression of the preserve rule: name Equals value
 	ShowContainers bool          `json:"showContainersInNrt,omitempty"`
 	LoadClasses    []LoadClass   `json:"loadClasses,omitempty"`
 }
@@ -85,8 +86,14 @@ func renderBalloonsCfg(c *CfgSpec, meta metav1.ObjectMeta) (cfgapi.ResmgrConfig,
 	if c.Reserved != "" {
 		pc.ReservedResources = policycfg.Constraints{policycfg.CPU: policycfg.Amount(c.Reserved)}
 	}
-	if b.PreserveLabel != "" {
-		pc.Preserve = &bcfg.ContainerMatchConfig{MatchExpressions: []resmgrapi.Expression{labelExpr(b.PreserveLabel)}}
+	if b.PreserveLabel != "" || b.PreserveName != "" {
+		pc.Preserve = &bcfg.ContainerMatchConfig{}
+		if b.PreserveLabel != "" {
+			pc.Preserve.MatchExpressions = append(pc.Preserve.MatchExpressions, labelExpr(b.PreserveLabel))
+		}
+		if b.PreserveName != "" {
+			pc.Preserve.MatchExpressions = append(pc.Preserve.MatchExpressions, resmgrapi.Expression{Key: "name", Op: resmgrapi.Equals, Values: []string{b.PreserveName}})
+		}
 	}
 	for _, lc := range b.LoadClasses {
 		pc.LoadClasses = append(pc.LoadClasses, bcfg.LoadClass{Name: lc.Name, Level: bcfg.CPUTopologyLevel(lc.Level), OverloadsLevelInBalloon: lc.Overloads})
@@ -123,6 +130,9 @@ func genBalloonsCfg(r *verifrt.Rand, m *machine.Machine) *CfgSpec {
 	}
 	if r.Chance(0.15) {
 		b.PreserveLabel = "a2"
+	}
+	if r.Chance(0.12) {
+		b.PreserveName = "c1" // a container matching any expression of the list is preserved
 	}
 	ntypes := r.Range(0, 3)
 	for i := 0; i < ntypes; i++ {
